@@ -27,10 +27,13 @@ const (
 	vfCommitShorter // broadcast commitments of the wrong length
 	vfBadSignature  // dealer signature over the deal invalid
 	vfIndexOutside  // dealer index outside the participant list
+	vfCommitMissing // the dealer never broadcast commitments (nothing stored for it)
+	vfCommitEmpty   // the dealer broadcast an empty commitment list
+	vfCommitLonger  // broadcast commitments with one entry too many
 	vfKinds
 )
 
-var vfKindName = []string{"honest", "status-false", "decrypt-fail", "commit-differs", "commit-shorter", "bad-signature", "index-outside"}
+var vfKindName = []string{"honest", "status-false", "decrypt-fail", "commit-differs", "commit-shorter", "bad-signature", "index-outside", "commit-missing", "commit-empty", "commit-longer"}
 
 type vfDescriptor struct {
 	Commits   [][]byte `json:"commits"`
@@ -150,8 +153,18 @@ func vfSymbolicScenario(n, t int, kinds []int) *DKG {
 			desc.SigOK = false
 		case vfIndexOutside:
 			idx = uint32(n + vf.Choose("d"+js+".outside", 3))
+		case vfCommitEmpty:
+			pts = []kyber.Point{}
+		case vfCommitLonger:
+			extra := vf.Bytes("d"+js+".extracommit", 2)
+			vf.Assume(vf.UFBool("kyber.pt.decodes", extra))
+			p := suite.Point()
+			_ = p.UnmarshalBinary(extra)
+			pts = append(pts, p)
 		}
-		d.StoreCommits(vfName(j), pts)
+		if kinds[j] != vfCommitMissing {
+			d.StoreCommits(vfName(j), pts)
+		}
 		cipher, _ := json.Marshal(desc)
 		d.StoreDeal(vfName(j), &dkgp.Deal{Index: idx, Deal: &vssp.EncryptedDeal{DHKey: []byte("dh"), Signature: []byte("s"), Nonce: []byte("n"), Cipher: cipher}, Signature: []byte("sig")})
 	}
@@ -231,8 +244,14 @@ func vfRealScenario(n, t int, kinds []int) *DKG {
 			deal.Signature = s
 		case vfIndexOutside:
 			deal.Index = uint32(n + vf.Choose("d"+strconv.Itoa(j)+".outside", 3))
+		case vfCommitEmpty:
+			commits = []kyber.Point{}
+		case vfCommitLonger:
+			commits = append(append([]kyber.Point{}, commits...), ds[j].suite.Point().Mul(ds[j].suite.Scalar().Pick(ds[j].suite.RandomStream()), nil))
 		}
-		victim.StoreCommits(vfName(j), commits)
+		if kinds[j] != vfCommitMissing {
+			victim.StoreCommits(vfName(j), commits)
+		}
 		victim.StoreDeal(vfName(j), deal)
 	}
 	return victim
